@@ -26,7 +26,8 @@ SCALARS = {"device_type": ["tun", "tap"], "device_name": ["vpn0", "tap%d"], "lis
            "beacon_interval": ["1", "7200"], "mode": ["normal", "router", "switch", "hub"], "switch_timeout": ["10", "301"]}
 OPTIONALS = {"device_path": ["/dev/net/tun", "/x"], "ip": ["10.0.0.1/24", "10.0.0.2"], "ifup": ["up.sh", "ifup"], "ifdown": ["down.sh"], "password": ["secret", "pw2"],
              "public_key": ["pubA", "pubB"], "keepalive": ["0", "5", "900"], "beacon_store": ["/tmp/b1", "b2"], "beacon_load": ["/tmp/l1", "l2"], "beacon_password": ["bp1", "bp2"],
-             "pid_file": ["/run/p1", "p2"], "stats_file": ["/run/s1", "s2"], "statsd_server": ["1.1.1.1:8125", "stat:1"], "user": ["nobody", "u2"], "group": ["nogroup", "g2"]}
+             "pid_file": ["/run/p1", "p2"], "stats_file": ["/run/s1", "s2"], "statsd_server": ["1.1.1.1:8125", "stat:1"], "statsd_prefix": ["vpn", "pfx2"],
+             "private_key": ["privA", "privB"], "user": ["nobody", "u2"], "group": ["nogroup", "g2"]}
 LISTS = {"peers": ["a:1", "b:2", "c.example:3210", "d:4"], "claims": ["10.0.0.0/8", "10.1.0.0/16", "fd00::/8"], "trusted_keys": ["k1", "k2", "k3"],
          "advertise_addresses": ["5.5.5.5:1", "6.6.6.6:2"], "algorithms": ["aes128", "chacha20", "plain", "aes256"]}
 
@@ -57,6 +58,8 @@ def arg_assign(rng, opts):
     for o in opts:
         if o in SCALARS:
             out.append("%s=%s" % (o, rng.choice(SCALARS[o])))
+        elif o == "keepalive":
+            out.append("keepalive=%s" % rng.choice(["1", "6", "901"]))           # numeric: a value the file assignments never use
         elif o in OPTIONALS:
             out.append("%s=%s" % (o, rng.choice(OPTIONALS[o]) + "A"))
         elif o in LISTS:
@@ -87,9 +90,14 @@ def arg_assign(rng, opts):
 ALL = list(SCALARS) + list(OPTIONALS) + list(LISTS) + ["fix_rp_filter", "auto_claim", "port_forwarding", "hook", "hooks"]
 
 
-def fix_args(a):
+def fix_arg_opts(rng, ao):
     """structopt constraints: --statsd-prefix requires --statsd-server; --private-key conflicts with --password"""
-    return a
+    ao = list(ao)
+    if "statsd_prefix" in ao and "statsd_server" not in ao:
+        ao.append("statsd_server")
+    if "private_key" in ao and "password" in ao:
+        ao.remove(rng.choice(["private_key", "password"]))
+    return ao
 
 
 def obs_class(op, obs):
@@ -124,7 +132,7 @@ def gen(tier, rng):
         for _ in range(6 if thorough else 2):
             for in_file, in_args in ((0, 0), (1, 0), (0, 1), (1, 1)):
                 f = file_assign(rng, [o] if in_file and o != "daemonize" else [])
-                a = arg_assign(rng, [o] if in_args else [])
+                a = arg_assign(rng, fix_arg_opts(rng, [o]) if in_args else [])
                 ops.append("%s %s %s" % (rng.choice(["cfgmerge", "cfgrt"]), f, a))
     # pairwise across options
     pairs = [(a, b) for i, a in enumerate(ALL) for b in ALL[i + 1:]]
@@ -132,14 +140,13 @@ def gen(tier, rng):
         if not thorough and not rng.chance(1, 3):
             continue
         fo = [o for o in (x, y) if rng.chance(2, 3)]
-        ao = [o for o in (x, y) if rng.chance(2, 3)]
+        ao = fix_arg_opts(rng, [o for o in (x, y) if rng.chance(2, 3)])
         ops.append("%s %s %s" % (rng.choice(["cfgmerge", "cfgrt"]), file_assign(rng, fo), arg_assign(rng, ao)))
     # random full combinations
     for _ in range(4000 if thorough else 300):
         fo = [o for o in ALL if rng.chance(1, 3)]
         ao = [o for o in ALL + ["daemonize"] if rng.chance(1, 4)]
-        if "statsd_prefix" in ao and "statsd_server" not in ao:
-            ao.append("statsd_server")
+        ao = fix_arg_opts(rng, ao)
         ops.append("%s %s %s" % (rng.choice(["cfgmerge", "cfgrt"]), file_assign(rng, fo), arg_assign(rng, ao)))
     # netmask
     for p in list(range(0, 41)) + [255, 256, 100]:
